@@ -134,10 +134,15 @@ fn near_misses(pos: &Pos, legal: &[Mv], prev: Option<&Pos>) -> Vec<String> {
 }
 
 /// Every exact label must be accepted and play its move (used for clock variants).
-fn c14_labels_only(pos: &Pos, st: &mut Stats) -> TestResult {
+fn c14_labels_only(pos: &Pos, st: &mut Stats, suffixed_only: bool) -> Result<u32, Failure> {
     let legal = pos.legal_moves();
+    let mut n = 0;
     for m in &legal {
         let label = notation::san(pos, m, &legal);
+        if suffixed_only && !(label.ends_with('+') || label.ends_with('#')) {
+            continue;
+        }
+        n += 1;
         let mut g2 = Game::from_board(to_board(pos), 1);
         st.count("exact_labels", 1);
         match g2.apply_chess_move_from_raw_algebraic_notation(label.clone()) {
@@ -155,7 +160,7 @@ fn c14_labels_only(pos: &Pos, st: &mut Stats) -> TestResult {
             }
         }
     }
-    Ok(())
+    Ok(n)
 }
 
 fn c14_position(pos: &Pos, prev: Option<&Pos>, st: &mut Stats) -> TestResult {
@@ -327,7 +332,7 @@ impl Prop for C14Typed {
                 2 => gen::ambiguity_theme().prop_map(|r| gen::build(&r).fen()),
                 1 => gen::castle_theme().prop_map(|r| gen::build(&r).fen()),
                 1 => gen::ep_theme().prop_map(|r| gen::build(&r).fen()),
-                1 => gen::terminal_biased(),
+                2 => gen::pre_terminal(),
             ],
             // mostly at or near the constructed position, sometimes deep into a game
             prop_oneof![
@@ -371,12 +376,15 @@ impl Prop for C14Typed {
         let prev = if ps.len() >= 2 { Some(&ps[ps.len() - 2]) } else { None };
         // what is accepted must not depend on the clocks: one sampled position in six is also
         // examined with the half-move clock at 99 (supplied board)
-        if last.fingerprint() % 6 == 0 && !last.legal_moves().is_empty() {
+        if !last.legal_moves().is_empty() {
             let mut late = last.clone();
             late.half = 99;
-            st.label("clock-99");
             let mut scratch = Stats::default();
-            c14_labels_only(&late, &mut scratch)?;
+            // all labels for one position in six, the check / mate labels for every position
+            let all = last.fingerprint() % 6 == 0;
+            if c14_labels_only(&late, &mut scratch, !all)? > 0 {
+                st.label(if all { "clock-99-all-labels" } else { "clock-99-check-and-mate-labels" });
+            }
         }
         c14_position(last, prev, st)
     }
